@@ -1,6 +1,7 @@
 import FlVerif.Base.SExp
 import FlVerif.Op.FllIO
 import FlVerif.Op.FllText
+import FlVerif.Op.PyRepr
 
 /-! Driver commands of the export / import models (C14, C15).  Free text travels hex-encoded (`h…`). -/
 
@@ -205,6 +206,77 @@ def exportCmd : List SExp → Option SExp
       match Dec.parse (← asText t) with
       | some x => pure (ofNum x)
       | none => pure (atom "none")
+  | _ => none
+
+/-! ### C15: object trees and constructor-call trees -/
+
+open Op.PyRepr in
+def asAtomVal : SExp → Option Atom
+  | atom "none" => some .none
+  | list [atom "num", x] => do pure (.num (← asNum x))
+  | list [atom "int", z] => do pure (.int (← z.asInt))
+  | list [atom "str", t] => do pure (.str (← asText t))
+  | list [atom "bool", b] => do pure (.bool (← b.asBool))
+  | list [atom "enum", t] => do pure (.enum (← asText t))
+  | list [atom "rule", r] => do pure (.rule (← asRule r))
+  | list [atom "opaque", atom w] => some (.opaque w)
+  | _ => none
+
+open Op.PyRepr in
+partial def asVal : SExp → Option Val
+  | list (atom "list" :: kids) => do pure (.node .list (← kids.mapM asVal))
+  | list (atom "array" :: kids) => do pure (.node .array (← kids.mapM asVal))
+  | list (atom "dict" :: list keys :: kids) => do pure (.node (.dict (← keys.mapM asText)) (← kids.mapM asVal))
+  | list (atom "obj" :: atom cls :: list names :: kids) => do
+      pure (.node (.obj cls (← names.mapM asAtom)) (← kids.mapM asVal))
+  | e => (asAtomVal e).map .atom
+
+open Op.PyRepr in
+def ofAtomVal : Atom → SExp
+  | .none => atom "none"
+  | .num x => list [atom "num", ofNum x]
+  | .int z => list [atom "int", atom (toString z)]
+  | .str s => list [atom "str", ofText s]
+  | .bool b => list [atom "bool", ofBool b]
+  | .enum s => list [atom "enum", ofText s]
+  | .rule r => list [atom "rule", ofRule r]
+  | .opaque w => list [atom "opaque", atom w]
+
+open Op.PyRepr in
+partial def ofVal : Val → SExp
+  | .atom a => ofAtomVal a
+  | .node .list kids => list (atom "list" :: kids.map ofVal)
+  | .node .array kids => list (atom "array" :: kids.map ofVal)
+  | .node (.dict keys) kids => list (atom "dict" :: list (keys.map ofText) :: kids.map ofVal)
+  | .node (.obj cls names) kids => list (atom "obj" :: atom cls :: list (names.map atom) :: kids.map ofVal)
+
+open Op.PyRepr in
+partial def ofSrc (d : Nat) : Src → SExp
+  | .atom (.lit pfx a) => list [atom "lit", ofText pfx, ofAtomVal a]
+  | .atom (.rule pfx toks) => list [atom "rulecreate", ofText pfx, ofText (" ".intercalate (toks.map (Tok.render d)))]
+  | .atom .invalid => atom "invalid"
+  | .node .list kids => list (atom "list" :: kids.map (ofSrc d))
+  | .node (.array pfx) kids => list (atom "array" :: ofText pfx :: kids.map (ofSrc d))
+  | .node (.dict keys) kids => list (atom "dict" :: list (keys.map ofText) :: kids.map (ofSrc d))
+  | .node (.call pfx cls kws) kids =>
+    list (atom "call" :: ofText pfx :: atom cls :: list (kws.map (fun k => atom (k.getD "_"))) :: kids.map (ofSrc d))
+
+open Op.PyRepr in
+def asEnv (al d tol : SExp) : Option Env := do pure ⟨← asText al, ← asCfg d tol⟩
+
+open Op.PyRepr in
+def reprCmd : List SExp → Option SExp
+  | [atom "py-repr", al, d, tol, v] => do
+      let env ← asEnv al d tol
+      pure (ofSrc env.cfg.d (asConstructor env (← asVal v)))
+  | [atom "py-eval", al, d, tol, v] => do
+      let env ← asEnv al d tol
+      match evalCall (asConstructor env (← asVal v)) with
+      | some r => pure (list [atom "ok", ofVal r])
+      | none => pure (atom "none")
+  | [atom "py-view", al, d, tol, v] => do
+      let env ← asEnv al d tol
+      pure (ofVal (view env (← asVal v)))
   | _ => none
 
 end Drv
